@@ -100,6 +100,9 @@ def check(ctx: Ctx) -> None:
             ctx.violation('C05.c', q, 'the %s call of the user iteration `%s` is not inside a try with a SkipThisOne '
                           'handler: a skipped repetition there aborts simulate()' % (role, norm(sites[ln])[:70]),
                           fn.path, ln, operand='run-site:' + role)
+    from ..dsf import auto_memo_check
+    ctx.rule('C05.g', 'no auto-discovered lazily filled cache of the classes in the anchored modules can be stale at the exit of a public method (dependencies = what the fill expression reads, incl. mutating calls on held sub-objects)', floor=5)
+    auto_memo_check(ctx, 'C05.g', [RUNNER, PAR])
     _check_variations(ctx)
     _check_axis_order(ctx)
     _check_falsy_zero(ctx)
